@@ -149,9 +149,27 @@ LawAccepts == phase = "sealed" => \A s \in Inputs : Accepts(re, s) = Matches(re,
 LawParse == phase = "sealed" => LET t == Show(re, 0) IN ParseRegex(t) = Ok(re, Len(t) + 1)
 \* the same law for larger trees (precedence of | against concatenation needs 5 nodes) and for
 \* leaves that need an escape or are classes: the parser reads back exactly the tree that was printed
-ParseLeaves == {Sym(cA), Sym(cB), AnyChar, Sym(cStar), Sym(cDash), Cls({cA, cB, cStar})}
+ParseLeaves == {Sym(cA), Sym(cB), AnyChar, Sym(cStar), Sym(cDash), Cls({cA, cB, cStar}), Cls({cDash, cRBr, cBsl})}
 ASSUME \A n \in 1..ParseSize : \A r \in AstsOver(ParseLeaves, n) :
           LET t == Show(r, 0) IN ParseRegex(t) = Ok(r, Len(t) + 1)
+\* escapes at every position of a class (single item, start / end / both ends of a range) and of
+\* every metacharacter outside a class
+ClassOf(t) == ParseRegex(<<cLBr>> \o t \o <<cRBr>>)
+IsCls(p, S) == p.ok /\ p.ast = Cls(S)
+ASSUME /\ IsCls(ClassOf(<<cPlus, cDash, cBsl, cDash>>), 43..45)                 \* [+-\-]
+       /\ IsCls(ClassOf(<<cBsl, cPlus, cDash, cBsl, cDot>>), 43..46)            \* [\+-\.]
+       /\ IsCls(ClassOf(<<cBsl, cPlus, cDash, cDot>>), 43..46)                  \* [\+-.]
+       /\ IsCls(ClassOf(<<cPlus, cDash, cDot>>), 43..46)                        \* [+-.]
+       /\ IsCls(ClassOf(<<cLPar, cDash, cBsl, cRPar>>), {40, 41})               \* [(-\)]
+       /\ IsCls(ClassOf(<<cBsl, cLBr, cDash, cBsl, cRBr>>), 91..93)             \* [\[-\]]
+       /\ IsCls(ClassOf(<<cBsl, cBsl, cDash, cBsl, cCaret>>), 92..94)           \* [\\-\^]
+       /\ IsCls(ClassOf(<<cBsl, cDash, cDash, 48>>), 45..48)                    \* [\--0]
+       /\ IsCls(ClassOf(<<cA, cBsl, cDash, 99>>), {cA, cDash, 99})              \* [a\-c]
+       /\ IsCls(ClassOf(<<cBsl, cCaret, cA>>), {cCaret, cA})                    \* [\^a]
+       /\ IsCls(ClassOf(<<cPlus, cDash, cBsl, cDash, cDot>>), 43..46)           \* [+-\-.]   range, then a member
+       /\ ~ClassOf(<<cPlus, cDash, cBsl>>).ok                                   \* [+-\]  the escape swallows ']'
+       /\ ~ClassOf(<<cCaret, cBsl, cDash>>).ok                                  \* [^\-]  negation: no demand
+ASSUME \A c \in Special : ParseRegex(<<cBsl, c>>) = Ok(Sym(c), 3) /\ ParseRegex(<<cA, cBsl, c, cB>>).ok
 \* texts outside the supported syntax are recognised as such (no demand), not mis-read
 ASSUME \A t \in {<<cA, cStar, cStar>>, <<cLBr, cCaret, cA, cRBr>>, <<cLPar, cA>>, <<cA, cRPar>>, <<cA, cBar>>,
                  <<cBar, cA>>, <<cLPar, cRPar>>, <<cBsl, 100>>, <<cA, cBsl>>, <<cLBr, cRBr>>, <<cLBr, cA, cDash, cRBr>>,
